@@ -3,9 +3,11 @@ package main
 import (
 	"github.com/tsawler/tabula/zzharness/props/c01"
 	"github.com/tsawler/tabula/zzharness/props/c03"
+	"github.com/tsawler/tabula/zzharness/props/c04"
 )
 
 func registerAll() {
 	register(c01.New())
 	register(c03.New())
+	register(c04.New())
 }
